@@ -237,6 +237,7 @@ func (w *W) Event(obj any, e Event) {
 	}
 	mc.Yield("log."+e.Kind, obj)
 	w.Events = append(w.Events, e)
+	mc.HarnessRelease()
 }
 
 // ---- gates ----
@@ -463,6 +464,7 @@ func (w *W) Invoke(c *Call) {
 	mc.Yield("call.return", &c.obj)
 	c.Resp, c.Err = resp, err
 	c.Returned = true
+	mc.HarnessRelease()
 }
 
 func nz(r *dev.Response, err error) (any, error) {
